@@ -95,6 +95,8 @@ def call_external(h: Any, name: str, args: List[AV], kwargs: Dict[str, AV], node
             if isinstance(args[0], PyDict):
                 d.items.update(args[0].items)
                 d.keys_av.update(args[0].keys_av)
+            elif isinstance(args[0], (Sym, Opaque, Term, Source)):
+                return Term("copy", ("dict", args[0]), ctx.new_id())
             else:
                 raise h.unsupported(node, "dict(iterable)")
         from .absint import hkey
